@@ -72,6 +72,19 @@ class Injector:
             hit = idx == inj.fail_at
             if hit and (inj.mode == "before" or label in NO_AFTER):
                 inj.fired = (label, inj.log[-1][1])
+                if label == "ZipFile.close" and a and getattr(a[0], "fp", None) is not None:
+                    # a close that fails still gives up the file: the handle is released without the central
+                    # directory being written (leaving the object open would let a later __del__ write it)
+                    z = a[0]
+                    inj.depth += 1
+                    try:
+                        if hasattr(z, "_didModify"):
+                            z._didModify = False
+                        orig(*a, **k)
+                    except Exception:
+                        pass
+                    finally:
+                        inj.depth -= 1
                 raise inj.make_exc(label)
             inj.depth += 1
             try:
